@@ -253,6 +253,14 @@ func init() {
 	specFuncs["samps"] = func(env *SpecEnv, n *ast.CallExpr) Value {
 		return mkApp("samps", SInt, env.term(n.Args[0]), env.term(n.Args[1]))
 	}
+	// bebyte(n, x, i): byte i of the n-byte big-endian representation of x
+	specFuncs["bebyte"] = func(env *SpecEnv, n *ast.CallExpr) Value {
+		k := env.term(n.Args[0])
+		if !k.IsConst() {
+			env.fail("bebyte needs a constant width")
+		}
+		return mkSelect(mkBe(k.Val.Int64(), env.term(n.Args[1])), env.term(n.Args[2]))
+	}
 	specFuncs["rdstate"] = func(env *SpecEnv, n *ast.CallExpr) Value {
 		v := env.eval(n.Args[0])
 		id, ok := env.e.objID(v)
